@@ -401,7 +401,7 @@ type expectation struct {
 }
 
 func runC01(e *env) {
-	e.res.Rule = "expression trees (every binary operator x 21 operand representatives squared, unary/elvis/ternary likewise; every built-in function x argument kinds and wrong arities; every operator nested in every operand position of every operator, minimal and redundant parentheses; random deep typed trees with 3% ill-typed sub-expressions) placed in 28 syntactic positions (implicit print, print, {{..}}, parenthesis, if, elseif, let, param, value= attribute, case, switch, foreach, directive arguments, data= attribute, map value, list item, [ ], ?[ ], function argument, ternary branches) over random data (null, booleans, small and 53-bit ints, dyadic floats, ASCII/Unicode/HTML-special strings, nested lists and maps, injected data, globals). Expected output: extracted Spec on the tree + html escaping. Non-trivial = every case; distinct by source text + data."
+	e.res.Rule = "expression trees (every binary operator x 23 operand representatives squared, unary/elvis/ternary likewise; the pairwise table: the 13 binary operators and ?: on every ordered pair of the 8 operand kinds, neg/not/ternary condition on every kind, operands as atoms and as composites; every built-in function x argument kinds and wrong arities; every operator nested in every operand position of every operator, minimal and redundant parentheses; random deep typed trees with 3% ill-typed sub-expressions) placed in 28 syntactic positions (implicit print, print, {{..}}, parenthesis, if, elseif, let, param, value= attribute, case, switch, foreach, directive arguments, data= attribute, map value, list item, [ ], ?[ ], function argument, ternary branches) over random data (null, booleans, small and 53-bit ints, floats from 2^-40 to 2^62 incl. the exponent-form thresholds and values like 0.1, ASCII/Unicode/HTML-special strings, nested lists and maps, injected data, globals). Expected output: extracted Spec on the tree + html escaping. Plus: the model's float printer against strconv on ~3900 float64 values, the model's IEEE + - * / against Go's float64 arithmetic on 1200 operand pairs. Non-trivial = every case; distinct by source text + data."
 	ctxs := xContexts()
 	byName := map[string]*xctx{}
 	for i := range ctxs {
@@ -501,7 +501,120 @@ func runC01(e *env) {
 		}
 		add("deep", g.gen(k, 2+e.rng.Intn(4)), c, xGenData(e.rng), []int{0, 0, 15, 50}[e.rng.Intn(4)])
 	}
+	// 6. the pairwise table: every operator x every ordered pair of operand KINDS, operands as atoms and as composites
+	// (generated last, so that the groups above draw the same random numbers as before the table existed)
+	for rep := 0; rep < e.scale; rep++ {
+		for i, t := range g.pairwiseTable() {
+			add("pairwise", t, printCtxs[i%len(printCtxs)], d0, 0)
+		}
+	}
 	c01Run(e, cases)
+	c01Coverage(e, cases)
+	c01FloatStrings(e)
+	c01FloatArith(e)
+	c01SkipNotes(e)
+}
+
+// c01Coverage asks the Spec for the kinds of the operands of every operator node of every generated tree and
+// prints the operator x operand-kind matrix: once for the systematic groups, once for the random trees.
+func c01Coverage(e *env, cases []*xcase) {
+	reqs := make([]string, 0, len(cases))
+	for _, c := range cases {
+		reqs = append(reqs, strings.Replace(c.specReq(c.treeS, newIDTable()), "spec_eval", "spec_kinds", 1))
+	}
+	resp := e.m.Batch(reqs)
+	sys, rnd, all := newCover(), newCover(), newCover()
+	for i, c := range cases {
+		r := resp[i]
+		if len(r) > 0 && strings.HasPrefix(r[0], "!") {
+			c01Fail(e, hx.Violation{Kind: "mismatch", What: "model runner failed on spec_kinds", Case: c.report(e), Observed: r[0]}, "")
+			continue
+		}
+		all.add(r)
+		switch c.group {
+		case "operator-matrix", "pairwise":
+			sys.add(r)
+		case "deep", "position":
+			rnd.add(r)
+		}
+	}
+	sys.notes(e, "SYSTEMATIC groups (operator-matrix, pairwise)")
+	rnd.notes(e, "RANDOM trees (groups deep, position)")
+	reached, total, missing := all.binCells()
+	e.res.Histogram["operator-x-kind-pair cells reached (14 binary operators x 8 x 8 value kinds)"] = reached
+	e.res.Histogram["operator-x-kind-pair cells in the table"] = total
+	rr, _, _ := rnd.binCells()
+	e.res.Histogram["operator-x-kind-pair cells reached by the random trees alone"] = rr
+	if len(missing) > 0 {
+		// the table is built so that every cell is reached; a hole means the generator changed
+		e.res.Note("operator x kind cells NOT reached: %s", strings.Join(missing, " "))
+		c01Fail(e, hx.Violation{Kind: "mismatch", What: "the pairwise table no longer reaches every operator x operand-kind cell", Observed: strings.Join(missing, " ")}, "")
+	}
+	var fns []string
+	for k := range all.fnArg {
+		fns = append(fns, k)
+	}
+	e.res.Histogram["function x argument-kind combinations reached"] = len(fns)
+	// per function and arity: how many of the 8^arity combinations of VALUE kinds were reached (X / O combinations not counted)
+	per := map[string]map[string]bool{}
+	for _, k := range fns {
+		p := strings.Split(k, ":") // fn name kinds...
+		if len(p) < 2 || strings.ContainsAny(strings.Join(p[2:], ""), "XO") {
+			continue
+		}
+		key := p[1] + "/" + strconv.Itoa(len(p)-2)
+		if per[key] == nil {
+			per[key] = map[string]bool{}
+		}
+		per[key][strings.Join(p[2:], "")] = true
+	}
+	var keys []string
+	for k := range per {
+		keys = append(keys, k)
+	}
+	sort.Strings(keys)
+	var parts []string
+	for _, k := range keys {
+		ar, _ := strconv.Atoi(k[strings.IndexByte(k, '/')+1:])
+		total := 1
+		for i := 0; i < ar; i++ {
+			total *= 8
+		}
+		parts = append(parts, fmt.Sprintf("%s: %d of %d", k, len(per[k]), total))
+	}
+	e.res.Note("functions (name/number of arguments: argument-kind combinations reached of 8^n, kinds as the Spec evaluates the arguments): %s", strings.Join(parts, "; "))
+}
+
+// c01SkipNotes: how many generated cases the oracle had to skip, and why.
+func c01SkipNotes(e *env) {
+	h := e.res.Histogram
+	cases := h["expect:error"] + h["expect:output"]
+	skipped, numeric, printing := 0, 0, 0
+	for k, v := range h {
+		if strings.HasPrefix(k, "outside-domain:") {
+			skipped += v
+			cases += v
+			if strings.Contains(k, "numeric-model") {
+				numeric += v
+			}
+			if strings.Contains(k, "float-outside-printing-domain") {
+				printing += v
+			}
+		}
+	}
+	if cases == 0 {
+		return
+	}
+	pct := func(n int) string { return strconv.FormatFloat(100*float64(n)/float64(cases), 'f', 2, 64) + "%" }
+	e.res.Note("skipped by the oracle: %d of %d expression cases (%s); of these outside the numeric model (int64 overflow, randomInt, round with digits, a float beyond the exponent range, an int beyond 2^53 used as a float, a function on a value it cannot treat exactly): %d (%s), "+
+		"float outside the printing domain: %d (%s). Cases with a float outside the OLD printing domain (|x| >= 10^6 or more than 9 fraction bits) among literals and data: %d, of which %d are checked against an expected output or error "+
+		"(%d expected texts contain a float in exponent form). "+
+		"HISTORY (quick tier, default seed): (a) commit e7d64ae -- printing modelled only for |x| < 10^6 with at most 9 fraction bits, float results only when exact, generator confined to |x| < 2^11 with 6 fraction bits: 291 of 15713 skipped (1.85%%): numeric model 246, printing domain 10, other 35; "+
+		"(b) Num.fl_to_string for every finite float64, the same 15713 cases (VERIF_C01_NARROW_FLOATS=1, groups other than pairwise): 279 skipped (1.78%%), printing domain 0; with the widened float generator 345 of 17553 (1.97%%), numeric model 309; "+
+		"(c) now: + - * / rounded as IEEE 754 prescribes (Num.fl_add_r ...), an inexact float result is no longer outside the model.",
+		skipped, cases, pct(skipped), numeric, pct(numeric), printing, pct(printing),
+		h["wide-float cases (a float literal or data value with |x| >= 10^6 or more than 9 fraction bits: outside the printing domain of the model before)"],
+		h["wide-float cases checked (expected: error)"]+h["wide-float cases checked (expected: output)"], h["wide-float cases whose expected text has a float in exponent form"])
 }
 
 func globalsSexp(g data.Map) string { return valueSexp(g, newIDTable()) }
@@ -611,6 +724,10 @@ func c01One(e *env, c *xcase, sd, st specResult) {
 
 	// --- expected output from the Spec ---
 	ex := c.expect(e, sd)
+	wide := c.tree != nil && (c.tree.hasWideFloat() || dataHasWideFloat(c.dataMap))
+	if wide {
+		e.res.Histogram["wide-float cases (a float literal or data value with |x| >= 10^6 or more than 9 fraction bits: outside the printing domain of the model before)"]++
+	}
 	if c.emptyIdentity {
 		// ledger I12: the statement does not fix the identity of an empty list ([] == [] is true here, false in the reference implementations)
 		ex = expectation{kind: "skip", why: "identity-of-empty-fresh-lists-unspecified"}
@@ -618,8 +735,12 @@ func c01One(e *env, c *xcase, sd, st specResult) {
 	switch ex.kind {
 	case "skip":
 		e.res.Histogram["outside-domain:"+ex.why]++
+		e.res.Histogram["skipped-in-group:"+c.group]++
 	case "error":
 		e.res.Histogram["expect:error"]++
+		if wide {
+			e.res.Histogram["wide-float cases checked (expected: error)"]++
+		}
 		if rerr == nil {
 			c01Fail(e, hx.Violation{Kind: "oracle", What: "the language gives the expression no value (" + ex.why + ") but the render succeeds", Case: rc(), Expected: "error", Observed: hx.Q(out)}, xFinding(c, ex, out, rerr))
 		} else if out != "" {
@@ -627,6 +748,12 @@ func c01One(e *env, c *xcase, sd, st specResult) {
 		}
 	case "out":
 		e.res.Histogram["expect:output"]++
+		if wide {
+			e.res.Histogram["wide-float cases checked (expected: output)"]++
+			if strings.Contains(ex.out, "e+") || strings.Contains(ex.out, "e-") {
+				e.res.Histogram["wide-float cases whose expected text has a float in exponent form"]++
+			}
+		}
 		if rerr != nil {
 			c01Fail(e, hx.Violation{Kind: "oracle", What: "the render returns an error for an expression that has a value", Case: rc(), Expected: hx.Q(ex.out), Observed: "error: " + firstLine(errStr(rerr))}, xFinding(c, ex, out, rerr))
 		} else if out != ex.out {
@@ -753,7 +880,7 @@ func firstLine(s string) string {
 func (c *xcase) expect(e *env, sd specResult) expectation {
 	switch sd.class {
 	case "outofmodel":
-		return expectation{kind: "skip", why: "inexact-float-or-int64-overflow-or-randomInt"}
+		return expectation{kind: "skip", why: "numeric-model(int64-overflow,randomInt,round-with-digits,float-exponent-range,int-beyond-2^53-as-float)"}
 	case "err":
 		return expectation{kind: "error", why: "Spec: no value"}
 	case "ok":
@@ -905,4 +1032,57 @@ func c01Fail(e *env, v hx.Violation, known string) {
 	}
 	e.res.Histogram["fail:"+v.Kind+":"+tag]++
 	e.res.Fail(v, known)
+}
+
+// floats outside the printing domain the model had before it covered every float64
+func wideFloat(f float64) bool {
+	if f == 0 || f != f {
+		return false
+	}
+	a := f
+	if a < 0 {
+		a = -a
+	}
+	if a >= 1e6 {
+		return true
+	}
+	x := a * 512
+	return x != float64(int64(x))
+}
+
+func (e *xe) hasWideFloat() bool {
+	if e.op == "float" && wideFloat(e.f) {
+		return true
+	}
+	for _, a := range e.accs {
+		if a.kind == 'x' && a.e.hasWideFloat() {
+			return true
+		}
+	}
+	for _, k := range e.kids {
+		if k.hasWideFloat() {
+			return true
+		}
+	}
+	return false
+}
+
+func dataHasWideFloat(v data.Value) bool {
+	switch x := v.(type) {
+	case data.Float:
+		return wideFloat(float64(x))
+	case data.List:
+		for _, y := range x {
+			if dataHasWideFloat(y) {
+				return true
+			}
+		}
+	case data.Map:
+		for _, y := range x {
+			if dataHasWideFloat(y) {
+				return true
+			}
+		}
+	}
+	return false
 }
